@@ -258,7 +258,25 @@ impl PanicInfo {
             .unwrap_or_default();
         let mut msg = String::new();
         let mut in_num = false;
+        // Quoted payloads (`…`, '…') vary from input to input: keep only the fixed text.
+        let mut stripped = String::new();
+        let mut quote: Option<char> = None;
         for c in self.msg.chars() {
+            match quote {
+                Some(q) if c == q => {
+                    quote = None;
+                    stripped.push(c);
+                }
+                Some(_) => {}
+                None => {
+                    if c == '`' || c == '\'' {
+                        quote = Some(c);
+                    }
+                    stripped.push(c);
+                }
+            }
+        }
+        for c in stripped.chars() {
             if c.is_ascii_digit() {
                 if !in_num {
                     msg.push('N');
